@@ -4,3 +4,6 @@ import Scfg.Sim
 import Scfg.Sem
 import Scfg.WF
 import Scfg.Codec
+import Scfg.Model.Edit
+import Scfg.Model.EditSpec
+import Scfg.Model.Names
